@@ -113,6 +113,78 @@ pub async fn exec(f: u32, a: &Args) -> Args {
             let none_ok = ServerConfig::builder().with_bind_default(0).with_identity(identity()).max_idle_timeout(None).is_ok() as u64;
             vec![vec![1, s, c, none_ok]]
         }
+        // chains of setter calls on both builders, read back from the built quinn configuration.
+        // a[0] = [role (0 server, 1 client)]; a[1..] = one op each: [1, 0] idle(None) | [1, 1, secs, nanos]
+        // idle(Some) | [2, 0] keep-alive(None) | [2, 1, ms] keep-alive(Some) | [3, b] allow_migration (server)
+        754 => {
+            let role = a[0][0];
+            let fmt_field = |dbg: &str, name: &str| -> String {
+                let key = format!("{}: ", name);
+                match dbg.find(&key) {
+                    Some(i) => {
+                        let rest = &dbg[i + key.len()..];
+                        let mut depth = 0i32;
+                        let mut end = rest.len();
+                        for (j, ch) in rest.char_indices() {
+                            match ch {
+                                '(' | '{' | '[' => depth += 1,
+                                ')' | '}' | ']' => { if depth == 0 { end = j; break; } depth -= 1; }
+                                ',' if depth == 0 => { end = j; break; }
+                                _ => {}
+                            }
+                        }
+                        rest[..end].trim().to_string()
+                    }
+                    None => "?".to_string(),
+                }
+            };
+            let dur_opt = |ms: Option<u64>| -> String { match ms { Some(m) => format!("Some({:?})", Duration::from_millis(m)), None => "None".to_string() } };
+            let dbg: Option<String> = if role == 0 {
+                let mut b = Some(ServerConfig::builder().with_bind_default(0).with_identity(identity()));
+                for op in &a[1..] {
+                    let Some(cur) = b.take() else { break };
+                    b = match (op[0], op[1]) {
+                        (1, 0) => cur.max_idle_timeout(None).ok(),
+                        (1, _) => cur.max_idle_timeout(Some(Duration::new(op[2], op[3] as u32))).ok(),
+                        (2, 0) => Some(cur.keep_alive_interval(None)),
+                        (2, _) => Some(cur.keep_alive_interval(Some(Duration::from_millis(op[2])))),
+                        (_, v) => Some(cur.allow_migration(v == 1)),
+                    };
+                }
+                b.map(|b| format!("{:?}", b.build().quic_config()))
+            } else {
+                let mut b = Some(ClientConfig::builder().with_bind_default().with_no_cert_validation());
+                for op in &a[1..] {
+                    let Some(cur) = b.take() else { break };
+                    b = match (op[0], op[1]) {
+                        (1, 0) => cur.max_idle_timeout(None).ok(),
+                        (1, _) => cur.max_idle_timeout(Some(Duration::new(op[2], op[3] as u32))).ok(),
+                        (2, 0) => Some(cur.keep_alive_interval(None)),
+                        (2, _) => Some(cur.keep_alive_interval(Some(Duration::from_millis(op[2])))),
+                        _ => Some(cur),
+                    };
+                }
+                b.map(|b| format!("{:?}", b.build().quic_config()))
+            };
+            let Some(dbg) = dbg else { return vec![vec![1, 0]] };
+            // idle: "None" or "Some(<ms>)"
+            let idle_txt = fmt_field(&dbg, "max_idle_timeout");
+            let idle: Vec<u64> = if idle_txt == "None" { vec![0] } else {
+                match idle_txt.trim_start_matches("Some(").trim_end_matches(')').trim_start_matches("VarInt(").trim_end_matches(')').parse::<u64>() {
+                    Ok(ms) => vec![1, ms],
+                    Err(_) => vec![9],
+                }
+            };
+            // keep-alive: which of the requested values (or the default, none) is it?
+            let keep_txt = fmt_field(&dbg, "keep_alive_interval");
+            let mut keep: Vec<u64> = vec![9];
+            if keep_txt == dur_opt(None) { keep = vec![0]; }
+            for op in &a[1..] {
+                if op[0] == 2 && op[1] == 1 && keep_txt == dur_opt(Some(op[2])) { keep = vec![1, op[2]]; }
+            }
+            let migr: Vec<u64> = if role == 0 { vec![(fmt_field(&dbg, "migration") == "true") as u64] } else { vec![1] };
+            vec![vec![1, 1], idle, keep, migr]
+        }
         // applied idle timeout and keep-alive: [idle_ms, keepalive_ms (0 = off), observe_ms]
         752 => {
             let (idle, ka, observe) = (a[0][0], a[0][1], a[0][2]);
@@ -288,6 +360,49 @@ pub fn oracle(f: u32, a: &Args, out: &Args) -> Option<(&'static str, String)> {
             }
             None
         }
+        754 => {
+            // C20 on the implementation alone: the built configuration holds what the last call of each
+            // setter asked for; an unrepresentable idle timeout yields no configuration
+            let mut idle: Option<Vec<u64>> = None;
+            let mut keep: Vec<u64> = vec![0];
+            let mut migr = 1u64;
+            let mut valid = true;
+            for op in &a[1..] {
+                match (op[0], op[1]) {
+                    (1, 0) => idle = Some(vec![0]),
+                    (1, _) => {
+                        let ms: u128 = op[2] as u128 * 1000 + (op[3] as u128) / 1_000_000;
+                        if ms >= (1u128 << 62) { valid = false; break; }
+                        idle = Some(vec![1, ms as u64]);
+                    }
+                    (2, 0) => keep = vec![0],
+                    (2, _) => keep = vec![1, op[2]],
+                    (3, v) => { if a[0][0] == 0 { migr = v } }
+                    _ => {}
+                }
+            }
+            if !valid {
+                if out[0] != vec![1, 0] {
+                    return Some(("C20", format!("a chain with an unrepresentable idle timeout still produced a configuration: {:?}", out)));
+                }
+                return None;
+            }
+            if out[0] != vec![1, 1] {
+                return Some(("C20", "a valid chain of setter calls produced no configuration".into()));
+            }
+            if let Some(i) = idle {
+                if out[1] != i {
+                    return Some(("C20", format!("idle timeout: the last call asked for {:?}, the built configuration holds {:?}", i, out[1])));
+                }
+            }
+            if out[2] != keep {
+                return Some(("C20", format!("keep-alive: the last call asked for {:?}, the built configuration holds {:?}", keep, out[2])));
+            }
+            if out[3] != vec![migr] {
+                return Some(("C20", format!("migration: the last call asked for {}, the built configuration holds {:?}", migr, out[3])));
+            }
+            None
+        }
         751 => {
             // refused iff the duration in milliseconds does not fit a QUIC varint (never altered silently)
             let ms: u128 = a[0][0] as u128 * 1000 + (a[0][1] as u128) / 1_000_000;
@@ -373,6 +488,28 @@ pub fn generate(rng: &mut Rng, thorough: bool, which: &str) -> Vec<Case> {
                 cs.push(Case::new(751, vec![vec![s, 0]], "representability-wrap"));
                 cs.push(Case::new(751, vec![vec![s, 999_000_000]], "representability-wrap"));
             }
+            // chains of setter calls (both builders): every order, repeated setters, an invalid idle anywhere
+            let n = if thorough { 600 } else { 150 };
+            for i in 0..n {
+                let role = (i % 2) as u64;
+                let len = 1 + rng.below(6);
+                let mut args = vec![vec![role]];
+                for _ in 0..len {
+                    let op = match rng.below(if role == 0 { 3 } else { 2 }) {
+                        0 => match rng.below(8) {
+                            0 | 1 => vec![1, 0],
+                            2 => vec![1, 1, ((1u128 << 62) / 1000) as u64 + rng.below(3), rng.below(1_000_000_000)],
+                            _ => vec![1, 1, rng.below(100_000), rng.below(1_000_000_000)],
+                        },
+                        1 => if rng.below(4) == 0 { vec![2, 0] } else { vec![2, 1, 1 + rng.below(90_000)] },
+                        _ => vec![3, rng.below(2)],
+                    };
+                    args.push(op);
+                }
+                cs.push(Case::new(754, args, "setter-chain"));
+            }
+            cs.push(Case::new(754, vec![vec![0]], "setter-chain-empty"));
+            cs.push(Case::new(754, vec![vec![1]], "setter-chain-empty"));
             for order in 0..3u64 {
                 cs.push(Case::new(753, vec![vec![order, 300]], "client-keep-alive"));
             }
